@@ -48,8 +48,12 @@ for (k, pid), line in results:
 for k, lst in by.items():
     mp = os.path.join(HERE, 'seeded', k, 'meta.json')
     m = json.load(open(mp))
+    prev = m.get('checks_run') or {}
+    done = set(p for p, v in lst)
+    keep = lambda xs: [x for x in (xs or []) if x.split()[0].rstrip(':') not in done]
+    lst_c = keep(prev.get('caught_by')); lst_m = keep(prev.get('missed_by')); lst_o = keep(prev.get('other'))
     m['checks_run'] = dict(tool='tools/seedrun.sh (scratch worktree of /repo HEAD + private copy of /verif, quick tier)',
-                           caught_by=['%s quick: %s' % (p, v) for p, v in lst if v.startswith('caught')],
-                           missed_by=['%s quick' % p for p, v in lst if v == 'missed'],
-                           other=['%s: %s' % (p, v) for p, v in lst if not v.startswith('caught') and v != 'missed'])
+                           caught_by=lst_c + ['%s quick: %s' % (p, v) for p, v in lst if v.startswith('caught')],
+                           missed_by=lst_m + ['%s quick' % p for p, v in lst if v == 'missed'],
+                           other=lst_o + ['%s: %s' % (p, v) for p, v in lst if not v.startswith('caught') and v != 'missed'])
     json.dump(m, open(mp, 'w'), indent=1)
